@@ -174,7 +174,7 @@ def _c12():
                              "server_plain", "server_pooled", "server_pooled-user", "family_unix", "family_tcp",
                              "two_methods_executing_at_once", "shutdown_with_request_in_flight", "invalid_body_sent",
                              "client_died_mid_body", "client_aborted_connection", "shared_request_and_notification_pool",
-                             "second_server_closed_while_first_serves"])
+                             "second_server_closed_while_first_serves", "abstract_unix_address"])
 
     return run
 
